@@ -211,13 +211,23 @@ func runC17(c *Ctx) {
 		winfo := wr.Info()
 		// insertion point without a read bucket → error
 		okIP := false
-		ast.Inspect(wr.Decl.Body, func(n ast.Node) bool {
+		_ = winfo
+		// wherever the per-file logic lives (WriteResponse itself or a helper of the package it calls): a test of a
+		// storage.ReadBucket-typed value against nil whose failing branch returns a non-nil error
+		deepInspect(p, wr, 2, func(n ast.Node, info *types.Info) bool {
 			ifs, ok := n.(*ast.IfStmt)
-			if !ok || !strings.HasSuffix(exprString(ifs.Cond), "== nil") || !strings.Contains(exprString(ifs.Cond), "insertionPointReadBucket") {
+			if !ok {
+				return true
+			}
+			be, ok := ast.Unparen(ifs.Cond).(*ast.BinaryExpr)
+			if !ok || be.Op != token.EQL || !isNilIdent(info, be.Y) {
+				return true
+			}
+			if t := info.TypeOf(be.X); t == nil || !strings.HasSuffix(namedPath(t), "storage.ReadBucket") {
 				return true
 			}
 			for _, st := range ifs.Body.List {
-				if r, ok := st.(*ast.ReturnStmt); ok && classifyReturn(winfo, r) == retNonNil {
+				if r, ok := st.(*ast.ReturnStmt); ok && classifyReturn(info, r) == retNonNil {
 					okIP = true
 				}
 			}
